@@ -1,6 +1,6 @@
 (* Props/C13.v — C13: StreamLexer is chunking-independent; Err; ShiftLen; slice stability.
    Statements only; each is closed by [exact] of a lemma proved in Stream/Proofs.v. *)
-From Verif Require Import Common.Base Stream.Model Stream.Spec Stream.Proofs Stream.Stable.
+From Verif Require Import Common.Base Stream.Model Stream.Spec Stream.Proofs Stream.Pool Stream.Stable Stream.Memory.
 
 (* However the reader splits the data (any schedule of Read results: any chunk sizes, zero-length reads,
    EOF or a failure delivered with or after the last bytes) and whatever initial buffer size >= 0 is chosen,
@@ -44,6 +44,33 @@ Theorem shift_slice_stable :
     In h outs -> hshift h = true -> intact s c h.
 Proof. exact shift_slice_stable_proof. Qed.
 Print Assumptions shift_slice_stable.
+
+(* Memory, part 1 — whatever the Free discipline: no array the lexer ever allocates (current buffer or pool) is
+   larger than max(size, 5*(L+1)), where L bounds how far any Peek/PeekRune looks ahead of the start of the
+   current token ([look_ok L] at every step of the history). *)
+Theorem capacity_bound :
+  forall (sch : list event) (size L : Z) (ops : list sop) s c outs,
+    0 <= size -> 0 <= L ->
+    all_steps (look_ok L) (sc_init (delivered sch)) ops ->
+    srun2 (new_stream sch size) (sc_init (delivered sch)) [] ops = Some (s, c, outs) ->
+    Forall (fun a => len a <= Z.max size (5 * (L + 1))) (sheap s).
+Proof. exact capacity_bound_proof. Qed.
+Print Assumptions capacity_bound.
+
+(* Memory, part 2 — when every shifted token has been freed by the time the lexer looks ahead again ([freed_all]:
+   bytes freed = bytes shifted at every Peek/PeekRune), a refill reuses the current buffer in place unless the buffer
+   has to grow, every growth more than doubles the capacity, and therefore the capacities of ALL arrays ever allocated
+   sum to at most 2*max(size, 5*(L+1)): bounded by the buffer size and the longest token, not by the stream.
+   (With delayed Free the pool legitimately holds the unfreed tokens; part 1 still bounds every single array.) *)
+Theorem memory_bound :
+  forall (sch : list event) (size L : Z) (ops : list sop) s c outs,
+    0 <= size -> 0 <= L ->
+    all_steps (look_ok L) (sc_init (delivered sch)) ops ->
+    all_steps freed_all (sc_init (delivered sch)) ops ->
+    srun2 (new_stream sch size) (sc_init (delivered sch)) [] ops = Some (s, c, outs) ->
+    sumz (caps (sheap s)) <= 2 * Z.max size (5 * (L + 1)).
+Proof. exact memory_bound_proof. Qed.
+Print Assumptions memory_bound.
 
 (* REFUTED on the current tree (known finding, KNOWN_FINDINGS.txt c13-stable:lexeme): a slice returned by
    Lexeme() changes although fewer bytes were released than had been shifted up to its end. *)
